@@ -416,6 +416,22 @@ def _sort_entry(vals, v):
             {"source": 'std.sort([3, 1, 2])', "oracle": {"oracle": "stdout_json_equals", "expected": [1, 2, 3]}}]
 
 
+@adapter("base64")
+def _base64(vals, v):
+    """probe: encoder against Python's base64 on every 1-byte input and a spread of 2- and 3-byte inputs; decoder
+    inverts it; malformed groups are errors"""
+    import base64 as b64
+    cases = []
+    samples = [[x] for x in range(0, 256, 5)] + [[x, 255 - x] for x in range(0, 256, 17)] + [[x, (x * 7) % 256, (x * 13) % 256] for x in range(0, 256, 23)] + [[1, 2, 3, 4], [250, 251, 252, 253, 254]]
+    for bs in samples:
+        exp = b64.b64encode(bytes(bs)).decode()
+        cases.append({"source": "std.base64(%s)" % json.dumps(bs), "oracle": {"oracle": "stdout_json_equals", "expected": exp}})
+        cases.append({"source": "std.base64DecodeBytes(%s)" % json.dumps(exp), "oracle": {"oracle": "stdout_json_equals", "expected": bs}})
+    for bad in ("A", "AB", "ABC", "A=AA", "=AAA", "AA=A", "AAA*", "AAAA="):
+        cases.append({"source": "std.base64DecodeBytes(%s)" % json.dumps(bad), "oracle": {"oracle": "error_expected"}})
+    return cases
+
+
 @adapter("crop")
 def _crop(vals, v):
     """every small crop size (and the counterexample's, clipped) on a run-time error with a 12-frame trace"""
